@@ -999,3 +999,23 @@ Proof.
   exists (fun t => if t =? 1 then 2%Z else 1%Z), [0; 0; 1; 1; 1; 0; 2; 2]. eexists.
   split; [vm_compute; reflexivity|]. split; vm_compute; reflexivity.
 Qed.
+
+(* a memo keyed by the label: the second key under the same label is answered with the first one's
+   material; with distinct labels (or no memo) every call gets its own *)
+Theorem label_memo_refuted :
+  exists calls, mrun [] calls <> map snd calls.
+Proof. exists [(7, 1); (7, 2)]%Z. vm_compute. discriminate. Qed.
+
+Lemma mrun_distinct_labels calls : forall memo,
+  NoDup (map fst calls) -> (forall c p, In c calls -> In p memo -> fst p <> fst c) ->
+  mrun memo calls = map snd calls.
+Proof.
+  induction calls as [|c rest IH]; intros memo Hnd Hfresh; cbn [mrun map]; [reflexivity|].
+  unfold mcall. destruct (find (fun p : Z * Z => (fst p =? fst c)%Z) memo) as [p|] eqn:Ef.
+  - exfalso. apply find_some in Ef. destruct Ef as [Hin E]. apply Z.eqb_eq in E.
+    eapply Hfresh; [left; reflexivity | exact Hin | exact E].
+  - f_equal. inversion Hnd as [|x l Hx Hl]; subst. apply IH; [exact Hl|].
+    intros c' p Hc' [Hp|Hp].
+    + subst p. intro E. apply Hx. rewrite E. apply in_map. exact Hc'.
+    + apply Hfresh; [right; exact Hc' | exact Hp].
+Qed.
